@@ -5,7 +5,7 @@
    (pull) methods exist only on push (pull) streams.  The domain is finite: the
    theorems are proved by computation over all cells.  That [resolves] predicts
    the Rust compiler is not proved: one program per cell is compiled (check). *)
-From Dryoc Require Import Impl.TypeState.
+From Dryoc Require Import Impl.TypeState Refine.TypeState.
 Import TypeState.
 Open Scope Z_scope.
 
@@ -24,6 +24,14 @@ Qed.
 Theorem C20_cells_complete : forall c pm lm,
   (c = 1 \/ c = 2) -> (pm = 0 \/ pm = 1 \/ pm = 2) -> (lm = 0 \/ lm = 1) -> In (c, pm, lm) cells.
 Proof. intros c pm lm [-> | ->] [-> | [-> | ->]] [-> | ->]; vm_compute; tauto. Qed.
+
+(* every impl row of a protected type, of ANY trait: write access only in the read-write state,
+   read access never in the no-access state, lock / no-access only from the unlocked state *)
+Theorem C20_rows_sound : forall rt rc rpm rlm bnds, In (rt, rc, rpm, rlm, bnds) impl_rows ->
+  (mem rt write_traits = true -> rpm = 0) /\
+  (mem rt read_traits = true -> rpm = 0 \/ rpm = 1) /\
+  (rt = T_Lock \/ rt = T_ProtectNoAccess -> rlm = 0).
+Proof. exact rows_sound_spec. Qed.
 
 Theorem C20_transitions_consume : transitions_consume = true.
 Proof. vm_compute. reflexivity. Qed.
